@@ -236,7 +236,24 @@ def check_sibling(ctx, templates: List[Template]) -> None:
             ctx.check(to in robjs, 'W2', key, t.where,
                       f'the text report prints {to} under `{lab}` while the sibling rich/HTML writer prints {sorted(robjs)} under the same label: '
                       f'one of the two does not state the computed quantity', fact=f'both print {to}')
+    # and the other way round: every item the rich/HTML writer prints under a shared label shows an object the text report shows there
+    rev = 0
+    for lab, items in sorted(rich.items()):
+        if lab not in text:
+            continue
+        tobjs = {_attr(t.values()[0].obj) for t in text[lab] if t.values()[0].obj} | SIBLING_EQUIV.get(lab, set())
+        if not tobjs:
+            continue
+        for o, c in items:
+            if not o:
+                continue
+            rev += 1
+            ro = _attr(o)
+            ctx.check(ro in tobjs, 'W2', f'OutputsRich/{lab}@{ro}/agrees-with-text-report', f'src/geophires_x/OutputsRich.py:{c.lineno}',
+                      f'the rich/HTML writer prints {ro} under `{lab}` while the text report prints {sorted(tobjs)} under that label: the '
+                      f'HTML report does not state the computed quantity', fact=f'both print {ro}')
     ctx.analysed['labels_shared_with_rich_writer'] = shared
+    ctx.analysed['rich_items_checked_against_text'] = rev
     ctx.floor('W2', shared, 80, 'labels shared with the sibling writer')
 
 
